@@ -37,20 +37,53 @@ BATCH = 350
 # ---------------------------------------------------------------------------------------------
 # TLC
 
-def model_check(ctx):
-    """C17 on the construction machine + the negative control."""
+BUILD_CFG = """SPECIFICATION Spec
+CONSTANTS
+  MaxObj = 6
+  MaxEdge = 4
+  MaxIface = 2
+  KindSeq <- MCAllKinds
+  RelSeq <- MCAllRels
+  Build = TRUE
+  SeedGraphs <- GenSeeds
+  ExKinds <- MCAllKindSet
+  ThinFrom = 99
+  ThinMod = 1
+  Seed = 1
+  NeedRoot = FALSE
+  Eager = FALSE
+INVARIANTS Confluence VariantRule
+PROPERTY Monotone
+CHECK_DEADLOCK FALSE
+"""
+
+
+def model_check(ctx, cases):
+    """C17 on the construction machine: the hand-written seed graphs, a seeded sample of the generated
+    graphs (the same graphs are then replayed on the real analyzer), and the negative control."""
     cfg = "MCUnused_buildq.cfg" if ctx.quick else "MCUnused_build.cfg"
-    r = vlib.run_tlc(ctx, "MCUnused", cfg, workers=4, timeout=3000, coverage=not ctx.quick)
+    r = vlib.run_tlc(ctx, "MCUnused", cfg, workers=4 if ctx.quick else 8, timeout=6000, coverage=not ctx.quick)
     vlib.tlc_require_ok(r, "C17 invariants on the construction machine")
     if r.distinct < 500:
         raise Inconclusive("construction machine explored only %d states" % r.distinct)
     dead = [a for a in r.coverage_zero if a in ("AddDecl", "StartMS", "ProcessMS", "Finish", "AddRef")]
     if dead:
         raise Inconclusive("construction machine: actions never taken: %s" % dead)
+    # generated graphs with <= 4 declarations as additional seeds
+    small = [c for c in cases if len(ug.Graph(c).units()) <= 4 and c["edges"] and ug.mixed(c)]
+    seeds = vlib.sample(ctx, small, 6 if ctx.quick else 60)
+    r2 = None
+    if seeds:
+        body = ",\n  ".join(ug.tla_value({"objs": [{k: o[k] for k in ("k", "ex", "ow", "sl", "ty")} for o in c["objs"]],
+                                           "edges": [{k: e[k] for k in ("r", "a", "b", "c")} for e in c["edges"]]}) for c in seeds)
+        mod = "---- MODULE MCUnusedGenSeeds ----\nEXTENDS MCUnused\nGenSeeds == {\n  %s }\n====\n" % body
+        r2 = vlib.run_tlc(ctx, "MCUnusedGenSeeds", "genseeds.cfg", workers=4, timeout=3000,
+                          extra_files={"MCUnusedGenSeeds.tla": mod, "genseeds.cfg": BUILD_CFG})
+        vlib.tlc_require_ok(r2, "C17 invariants on the construction machine (generated seed graphs)")
     neg = vlib.run_tlc(ctx, "MCUnused", "MCUnused_eager.cfg", workers=4, timeout=3000)
     if neg.violated != "Confluence":
         raise Inconclusive("negative control: the eager (order-dependent) construction did not violate Confluence (%s)" % neg.violated)
-    return r, neg
+    return r, r2, neg, seeds
 
 
 # ---------------------------------------------------------------------------------------------
@@ -378,7 +411,7 @@ def run_corpora(ctx, helper):
         cache = ctx.tmp("corp-cache-" + tag)
         base = corpus_counter(ug.run_helper(ctx, helper, o, flags, cache=cache))
         ok = [k for k, v in base.items() if v is not None]
-        if len(ok) < (40 if tag == "testdata" else 4):
+        if len(ok) < (40 if tag == "testdata" else 3):
             raise Inconclusive("corpus %s: only %d packages analysed" % (tag, len(ok)))
         for mode, seed in modes:
             dst = ctx.tmp("corp-%s-%s-%d" % (tag, mode, seed))
@@ -468,11 +501,13 @@ def run(ctx):
     lap(ctx, "build")
     n_self = self_test(ctx, helper)
     lap(ctx, "self_test")
-    mc, neg = model_check(ctx)
-    lap(ctx, "tlc_construction")
     cases, gen_runs = ug.generate(ctx)
     lap(ctx, "tlc_generation")
+    mc, mc2, neg, seeds = model_check(ctx, cases)
+    lap(ctx, "tlc_construction")
     chosen = ug.select(ctx, cases, ug.cap(40 if ctx.quick else 1500))
+    have = set(ug.graph_key(c) for c in chosen)
+    chosen += [c for c in seeds if ug.graph_key(c) not in have]   # the model-checked graphs are replayed too
     stats, nontrivial, base = run_perm_add(ctx, helper, chosen, 4 if ctx.quick else 24)
     lap(ctx, "perm_add")
     vcases_idx = [i for i in range(len(chosen))]
@@ -499,10 +534,11 @@ def run(ctx):
                 "through lintcmd; evaluations = packages analysed; a case is non-trivial if its unpermuted run has both used and unused/quiet objects",
         "samples": [{"graph": chosen[len(chosen) // 2], "source": ug.render(g0)[0]}, {"variants": vsample}, {"corpora": csamples}],
         "exhaustive": False,
-        "states": mc.distinct,
-        "transitions": mc.generated,
+        "states": mc.distinct + (mc2.distinct if mc2 else 0),
+        "transitions": mc.generated + (mc2.generated if mc2 else 0),
         "tlc": {"construction": {"config": "MCUnused_buildq.cfg" if ctx.quick else "MCUnused_build.cfg", "states": mc.distinct, "generated": mc.generated,
                                  "wall_s": round(mc.wall, 1), "properties": ["Confluence", "VariantRule", "Monotone(action)"]},
+                "construction_on_generated_graphs": {"graphs": len(seeds), "states": mc2.distinct if mc2 else 0, "generated": mc2.generated if mc2 else 0},
                 "negative_control": {"config": "MCUnused_eager.cfg", "violated": neg.violated},
                 "generation": gen_runs,
                 "observation": {"module": "UnusedObs", "artefacts": tr.distinct - 1 if tr else 0}},
